@@ -6,7 +6,8 @@ CONSTANTS
   MaxTree = 5
   MaxFaults = 3
   Depth = 30
+  Dialect = "memory"
 INIT Init
 NEXT SimNext
-INVARIANTS ExportFinished CacheSound CacheBounded
+INVARIANTS ExportFinished CacheSound CacheBounded FaultClasses
 CHECK_DEADLOCK FALSE
